@@ -167,3 +167,52 @@ Proof.
   - rewrite (Hflow_a pool Hd3 ltac:(congruence)). unfold ind. rewrite Z.eqb_refl.
     destruct (Z.eqb_spec pool ifund); [congruence|]. rewrite Htl. lia.
 Qed.
+
+(* C17 at the engine: the swap a new-position OpenPosition executes is the swap_input of the requested notional
+   carrying the caller's limit unchanged, and the stored position holds exactly the base it exchanged *)
+Theorem open_new_position_tx_swap f w t v s m l lim funds w' vm :
+  exec_op f w (OEngine t (EOpenPosition v s m l lim) funds) = Ok w' ->
+  find_position (w_eng w) v t = None -> get_vamm w v = Ok vm -> 0 < e_dec (ec (w_eng w)) ->
+  wf0 (v_total (vs vm)) ->
+  let notional := m * l / e_dec (ec (w_eng w)) in
+  exists vm' ba, swap_input vm (w_env w) A_ENGINE (side_to_direction s) notional lim false = Ok (vm', (notional, ba)) /\
+    0 <= ba /\
+    exists p, find_position (w_eng w') v t = Some p /\ toZ (p_size p) = match s with Buy => ba | Sell => - ba end.
+Proof.
+  intros H Hnone Hvm HD Hwt notional.
+  cbn [exec_op] in H. revert H. generalize FUEL. intros fuel H.
+  destruct (attach_funds w t A_ENGINE funds) as [w0|] eqn:Ea; [|discriminate]. cbn [bind] in H.
+  cbn [engine_execute] in H.
+  destruct (e_open_position w0 t v s m l lim funds) as [[w1 subs]|] eqn:Eo; [|discriminate]. cbn [bind fst snd] in H.
+  destruct (dispatch fuel f w1 0 A_ENGINE subs) as [[wf nf]|] eqn:Ed; [|discriminate]. cbn [bind fst] in H. inv_ok.
+  pose proof (attach_funds_core _ _ _ _ _ Ea) as [E1 E2].
+  assert (E3 : w_vamms w0 = w_vamms w) by (unfold attach_funds in Ea; destruct (funds =? 0); [inv_ok; auto|]; minv Ea; inv_ok; auto).
+  pose proof (open_position_tmp _ _ _ _ _ _ _ _ _ _ Eo) as (tm & Htm & Hv & Ht & Hside & _).
+  pose proof (open_new_position_shape _ _ _ _ _ _ _ _ _ _ Eo ltac:(rewrite E1; exact Hnone) ltac:(rewrite E1; exact HD)) as (-> & Hl0 & Etok & Eif & Evm & Eec).
+  assert (Hpos1 : find_position (w_eng w1) v t = None /\ w_env w1 = w_env w0).
+  { unfold e_open_position in Eo. arm Eo. cbn [w_eng set_eng w_env]. rewrite find_set_sent, find_set_tmp. rewrite E1. auto. }
+  destruct Hpos1 as [Hnone1 Eenv].
+  apply dispatch_single in Ed; [|reflexivity|reflexivity].
+  destruct Ed as (k & wa & ev & wb & sb & _ & Ex & Er & n1 & Ed).
+  cbn [internal_increase_position swap_input_msg sm_msg sm_id] in Ex, Er.
+  apply exec_swap_input in Ex. destruct Ex as (vm0 & vm' & qa & ba & Hz & Hsw & -> & ->).
+  assert (vm0 = vm) by (unfold get_vamm in Hvm; rewrite Evm, E3 in Hz; rewrite Hz in Hvm; congruence). subst vm0.
+  rewrite Eenv, E2, E1 in Hsw. fold notional in Hsw.
+  pose proof (swap_input_total _ _ _ _ _ _ _ _ _ _ Hsw Hwt) as (Hba & _ & _).
+  assert (qa = notional) by (unfold swap_input in Hsw; minv Hsw; inv_ok; reflexivity). subst qa.
+  unfold contract_reply, engine_reply in Er. rewrite Z.eqb_refl in Er.
+  change (INCREASE_ID =? INCREASE_ID) with true in Er. cbn iota in Er.
+  pose proof (update_position_reply_leafy _ _ _ _ _ _ Er) as Hlf.
+  eapply update_position_reply_shape in Er; [|cbn [w_eng set_vamm]; exact Htm].
+  cbv zeta in Er. rewrite Hv, Ht, Hside in Er. cbn [w_eng set_vamm w_env] in Er.
+  destruct Er as (p' & Hw & Hadd & _).
+  unfold get_position in Hadd. rewrite Hnone1 in Hadd. cbn [p_size] in Hadd.
+  destruct (signed_out_facts s ba Hba) as (Hso1 & _ & Hso3).
+  apply sadd_toZ0 in Hadd; [|unfold wf0; cbn; lia|exact Hso1]. destruct Hadd as (Za & _ & _).
+  change (toZ szero) with 0 in Za.
+  exists vm', ba. split; [exact Hsw|]. split; [exact Hba|].
+  exists p'. split.
+  - apply dispatch_leafy_core in Ed; [|exact Hlf]. destruct Ed as (Ee & _). rewrite Ee.
+    destruct Hw as (Wp & _). unfold find_position. rewrite Wp. apply zfind_zset_same.
+  - rewrite Za, Hso3. destruct s; cbn [side_to_direction]; lia.
+Qed.
